@@ -521,11 +521,11 @@ def breakdown_descs(rng, count, types=("d",), gen=None, meas=2):
             # rank-1 general matrices and scaled (2^+-20) breakdown inputs violate C02/C07 on the unchanged tree: recorded findings on
             # fixed descriptors (check.py FIXED_BREAKDOWN), not part of the random profile
             f, sv = rng.choice([(dict(fam="lowrank", rank=rng.randint(2, 3)), "rnd"), (dict(fam="blockdiag", blk=rng.randint(2, 4)), "blk"),
-                                (dict(fam="tri"), "e1"), (dict(fam="fewdist", nd=rng.randint(2, 3)), "rnd")])
-            # (the constant-row-sum family with the ones start vector - an eigenvector to working accuracy, not exactly - is used for the
-            # symmetric classes only: for the general solver about 1 % of such inputs put the rounding-level residual of the step-1
-            # factorization just above Arnoldi::init's eps*|H00| test on the unchanged tree; two such inputs are recorded findings on fixed
-            # descriptors, check.py FIXED_BREAKDOWN)
+                                (dict(fam="tri"), "e1"), (dict(fam="fewdist", nd=rng.randint(2, 3)), "rnd"),
+                                # ones is an eigenvector to working accuracy, not exactly: tiny NONZERO residual of the step-1 factorization
+                                # (before fix 2a9e216 about 1 % of these inputs lost the orthogonality of V; two of them are kept as
+                                # regression inputs in check.py FIXED_BREAKDOWN)
+                                (dict(fam="rowsum", rs=rng.choice([10, 10, -12, 25])), "ones")])
             nev, ncv = rng.randint(1, 2), rng.randint(7, 9)
             a0 = "%d:%d:%s:%d" % (rng.choice([0, 1]), 20, tol, rng.choice(GEN_RULES))
             cls = "gen"
@@ -543,6 +543,13 @@ def breakdown_descs(rng, count, types=("d",), gen=None, meas=2):
         kw = dict(cls=cls, ty=ty, n=n, nev=nev, ncv=min(n, ncv), seed=rng.randint(1, 10 ** 6), hist="N,V1,C0", sv1=sv, args0=a0, meas=meas, ref=0,
                   lgs=0)
         kw.update(f)
+        # a third of the invariant-subspace starts are NEAR breakdowns instead: the start vector is 10^dlt away from the subspace, so the
+        # residual at the would-be breakdown is about 10^dlt - far above rounding level; it must be kept, not treated as noise
+        near = {"blk": "nearblk", "e1": "neare1"}.get(sv)
+        if near and ty != "f" and i % 3 == 0:
+            kw["sv1"] = near
+            kw["dlt"] = -(6 + (i // 3) % 6)
+            kw["args0"] = kw["args0"].rsplit(":", 2)[0] + ":-10:" + kw["args0"].rsplit(":", 1)[1]
         out.append(desc(**kw))
     return out
 
